@@ -196,7 +196,9 @@ def run(W, chk):
           if not {"info", "total_fees"} <= pn_:
               chk.skip("DEP-extra-funds", "named helpers", "helper signatures changed (%s); the entry-level CUT-create guards decide the clause" % sorted(pn_))
               raise StopIteration
-          dep |= {o + f for o in dep & {"info.funds[*]", "total_fees[*]"} for f in (".denom", ".amount")}      # a whole coin compared covers both fields
+          # a whole coin compared (`fee == fund`), or looked up in the whole list (`total_fees.contains(fund)`), covers both fields
+          dep |= {o + f for o in dep & {"info.funds[*]", "total_fees[*]"} for f in (".denom", ".amount")}
+          dep |= {o + "[*]" + f for o in dep & {"info.funds", "total_fees"} for f in (".denom", ".amount")}
           chk.expect(need <= dep, "DEP-extra-funds", "validate_no_additional_funds_sent_with_pool_creation",
                      "accept/reject depends on each fund coin's denom and amount and on each expected fee's denom and amount",
                      "the extra-funds decision does not depend on %s (it cannot reject a surplus coin it never looks at)" % sorted(need - dep),
